@@ -367,6 +367,10 @@ fn gen_module(id: usize, sh: &Shape) -> String {
             s += "    }\n    use ext::RemoteW;\n";
         }
         s += "    #[derive(Animate)]\n    ";
+    } else if id % 2 == 1 {
+        // every other local struct has a hand-written Default with non-zero values: the implicit 0% frame of a
+        // property comes from the property TYPE's default, not from the struct's
+        s += "    #[derive(Animate, Clone, Debug, PartialEq)]\n    ";
     } else {
         s += "    #[derive(Animate, Clone, Debug, Default, PartialEq)]\n    ";
     }
@@ -374,6 +378,9 @@ fn gen_module(id: usize, sh: &Shape) -> String {
     s += "\n";
     let r = sh.target();
     let w = sh.name();
+    if !sh.remote && id % 2 == 1 {
+        s += &format!("    impl Default for {w} {{ fn default() -> Self {{ {w} {{ {} }} }} }}\n", (0..n).map(|i| format!("f{i}: 9 as {}", ty(i))).collect::<Vec<_>>().join(", "));
+    }
     s += &format!("    impl Presence for {r}KeyframeBuilder {{ fn present(&self) -> bool {{ true }} }}\n");
     s += &format!("    pub fn run(r: &mut Report) {{\n        let id = {id}usize;\n");
     // (1) setter presence
@@ -428,6 +435,12 @@ fn gen_module(id: usize, sh: &Shape) -> String {
         let fty = ty(f);
         let other = if anim.len() > 1 { format!(".f{}(9 as {})", anim[1], ty(anim[1])) } else { String::new() };
         s += &format!("        let tl = {w}::timeline().duration_seconds(1.0).keyframe({w}::keyframe(0.0).f{f}(0 as {fty})).keyframe({w}::keyframe(0.25){other}.easing(Easing::InQuint)).keyframe({w}::keyframe(0.5).f{f}(40 as {fty})).keyframe({w}::keyframe(1.0).f{f}(80 as {fty})).build();\n        for (time, want) in [(0.125f32, 10.0f64), (0.25, 20.0), (0.375, 30.0), (0.5, 40.0), (0.625, 50.0), (0.75, 60.0), (0.875, 70.0), (1.0, 80.0)] {{ let mut t = sentinel.clone(); tl.update(&mut t, time); r.checks += 1; if ((t.f{f} as f64) - want).abs() > 0.51 {{ r.bad(id, format!(\"a 25% keyframe with easing InQuint that does not define f{f}, t={{time:?}}: f{f} = {{:?}}, reference {{want}} (linear)\", t.f{f})); }} }}\n");
+    }
+    // (2h) a reversing timeline with three keyframes rests, after its end, on the ORIGINAL 0% keyframe
+    {
+        let f = anim[0];
+        let fty = ty(f);
+        s += &format!("        let tl = {w}::timeline().duration_seconds(2.0).reverse(true).keyframe({w}::keyframe(0.0).f{f}(4 as {fty})).keyframe({w}::keyframe(0.5).f{f}(10 as {fty})).keyframe({w}::keyframe(1.0).f{f}(40 as {fty})).build();\n        for (time, want) in [(0.5f32, 10.0f64), (1.0, 40.0), (1.5, 10.0), (2.0, 4.0), (2.5, 4.0), (100.0, 4.0)] {{ let mut t = sentinel.clone(); tl.update(&mut t, time); r.checks += 1; if ((t.f{f} as f64) - want).abs() > 0.51 {{ r.bad(id, format!(\"reversing 2 s timeline with keyframes 4 / 10 / 40, t={{time:?}}: f{f} = {{:?}}, reference {{want}}\", t.f{f})); }} }}\n");
     }
     // (2d) a negative delay shifts the start before time 0: negative times after the shifted start are inside the
     // animation, earlier ones rest at the 0% keyframe
@@ -537,7 +550,7 @@ fn layer_b(sel: &[Shape], sink: &mut VSink) -> (u64, u64) {
                 continue;
             }
             src += &gen_module(i, sh);
-            calls += &format!("    s{i}::run(&mut r);\n");
+            calls += &format!("    if std::panic::catch_unwind(std::panic::AssertUnwindSafe(|| s{i}::run(&mut r))).is_err() {{ r.bad({i}, \"a check of this shape panicked (see stderr of the shape binary)\".to_string()); }}\n");
         }
         src += &format!("fn main() {{\n    let mut r = Report {{ checks: 0 }};\n{calls}    println!(\"DONE {{}}\", r.checks);\n}}\n");
         write_if_changed(&dir.join("src").join(format!("{b}.rs")), &src);
@@ -702,7 +715,7 @@ pub fn run(run: Run) -> ! {
     cov.insert("programs_compiled".into(), json!(compiled));
     cov.insert("evaluations".into(), json!(shapes_a + checks));
     cov.insert("distinct_nontrivial".into(), json!(shapes_a));
-    cov.insert("rule".into(), json!(format!("Layer A (in-process expansion of the real derive source, parsed as a syn::File): ALL struct shapes with {} fields over types {{f32,f64,u8,i16,i32,u32}} x every #[animate] subset x struct visibility {{private,pub,pub(crate)}} (field visibilities rotated) x {{local, #[animate(remote = ...)] proxy (bare identifier or module-qualified path)}}, with doc comments / #[allow] / #[cfg] attributes before or after the #[animate] marker and on the struct (rotated over all shapes, and exhaustively for 1..2 fields), plus (Layer B) 72 structs whose middle or first field is named like an identifier of the generated code or of the builder API (normalized_time, frame_index, values, easing, build, ...), plus 48 WIDE structs (8, 12, 20, 33 fields x markers none/all/even/first/last/one-in-the-middle x local/remote; three of them compiled in quick, all in thorough) and 6 structs with one field of each of the 11 numeric types (f32 f64 u8 i16 i32 u32 i8 u16 i64 u64 usize; two compiled in quick); oracle: animated field set = attributed fields, or all if none is attributed; the keyframe builder has exactly one public setter per animated field with the field's type, keyframe data and t_<field> sub-timelines likewise, keyframe_from / values_from / update / start_with touch exactly the animated fields and are wired name-to-name, Target is the (remote) type, visibility copied, accessors forwarded to the time scale. Layer B: {} shapes compiled with the real derive: setter presence observed at run time (inherent-vs-trait method resolution), keyframe_from copies exactly the animated fields, also when the source holds zeros (and a later setter, or a second call of the same setter, overrides), un-animated fields keep sentinels, every animated field interpolates per a linear reference on a 41-point time grid; a keyframe that names Easing::Linear explicitly under a non-linear default easing interpolates linearly (in every other shape each (position, field) is its own keyframe, so keyframes share positions) (delay, two cycles, after the end), a timeline with a negative delay is evaluated at negative times on both sides of its shifted start, a field first keyed at 50% with its own easing has a lead-in eased by the default easing, a keyframe with an easing that does not define the field leaves that field's segments alone, metadata accessors return the configured values (also Times(0), which is not None), and a stepped animation of the first animated field (40 holds = 80 keyframes with tied positions, end-of-hold keyframes added before start-of-hold ones) shows each hold's value inside the hold ({} run-time checks)", if thorough { "1..5 (6 types) and 6 (3 types)" } else { "1..4" }, compiled, checks)));
+    cov.insert("rule".into(), json!(format!("Layer A (in-process expansion of the real derive source, parsed as a syn::File): ALL struct shapes with {} fields over types {{f32,f64,u8,i16,i32,u32}} x every #[animate] subset x struct visibility {{private,pub,pub(crate)}} (field visibilities rotated) x {{local, #[animate(remote = ...)] proxy (bare identifier or module-qualified path)}}, with doc comments / #[allow] / #[cfg] attributes before or after the #[animate] marker and on the struct (rotated over all shapes, and exhaustively for 1..2 fields), plus (Layer B) 72 structs whose middle or first field is named like an identifier of the generated code or of the builder API (normalized_time, frame_index, values, easing, build, ...), plus 48 WIDE structs (8, 12, 20, 33 fields x markers none/all/even/first/last/one-in-the-middle x local/remote; three of them compiled in quick, all in thorough) and 6 structs with one field of each of the 11 numeric types (f32 f64 u8 i16 i32 u32 i8 u16 i64 u64 usize; two compiled in quick); oracle: animated field set = attributed fields, or all if none is attributed; the keyframe builder has exactly one public setter per animated field with the field's type, keyframe data and t_<field> sub-timelines likewise, keyframe_from / values_from / update / start_with touch exactly the animated fields and are wired name-to-name, Target is the (remote) type, visibility copied, accessors forwarded to the time scale. Layer B: {} shapes compiled with the real derive: setter presence observed at run time (inherent-vs-trait method resolution), keyframe_from copies exactly the animated fields, also when the source holds zeros (and a later setter, or a second call of the same setter, overrides), un-animated fields keep sentinels, every animated field interpolates per a linear reference on a 41-point time grid; a keyframe that names Easing::Linear explicitly under a non-linear default easing interpolates linearly (in every other shape each (position, field) is its own keyframe, so keyframes share positions) (delay, two cycles, after the end), a timeline with a negative delay is evaluated at negative times on both sides of its shifted start, a field first keyed at 50% with its own easing has a lead-in eased by the default easing (every other local struct has a hand-written, non-zero Default: the implicit 0% frame is the property type's default, not the struct's), a keyframe with an easing that does not define the field leaves that field's segments alone, a reversing three-keyframe timeline rests on its original 0% keyframe after the end, metadata accessors return the configured values (also Times(0), which is not None), and a stepped animation of the first animated field (40 holds = 80 keyframes with tied positions, end-of-hold keyframes added before start-of-hold ones) shows each hold's value inside the hold ({} run-time checks)", if thorough { "1..5 (6 types) and 6 (3 types)" } else { "1..4" }, compiled, checks)));
     cov.insert("exhaustive".into(), json!(true));
     cov.insert("compiled_runtime_checks".into(), json!(checks));
     cov.insert("samples".into(), json!(acc.samples));
